@@ -608,6 +608,8 @@ func (b *builder) build1(v *Val) interface{} {
 		return map[unsafe.Pointer]int{unsafe.Pointer(&mupA): 1, unsafe.Pointer(&mupB): int(v.int(in)), unsafe.Pointer(&mupC): 3}
 	case "structm":
 		return StructM{m: map[interface{}]int{1: 1, "a": int(v.int(in)), 2.5: 3, true: 4}, M: map[interface{}]string{"k": v.str(in), 2: "two", NStr("n"): "three"}}
+	case "safemsg2":
+		return SafeMsg2{Msg: "m", secret: v.str(in), Secret: v.str(in)}
 	case "ystringer":
 		return YieldStringer{S: v.str(in), N: int(v.I)}
 	case "tagstruct":
